@@ -200,6 +200,8 @@ class Sess:
         self.server = LogServer(self.rec, policy=dict(policy or {}), users=users)
         if callable(attacker_kw):
             attacker_kw = attacker_kw(self.rec)
+        if callable(victim_kw):
+            victim_kw = victim_kw(self.rec)
         if role == "client":
             self.att = attacker.Attacker("client", rng=rng, recorder=self.rec, victim_server=self.server,
                                          host_keys=host_keys, victim_kw=victim_kw, attacker_kw=attacker_kw)
